@@ -4,6 +4,39 @@
 use super::*;
 use crate::{point, vector};
 
+#[cfg(kani)]
+mod k {
+    use super::*;
+
+    fn any_coord() -> (i32, f32) {
+        let v: i32 = kani::any();
+        kani::assume(v >= -8 && v <= 8);
+        (v, v as f32)
+    }
+
+    // C13.pip.triangle: for every triangle with integer corners in [-8,8]^2 (either winding, not degenerate) and every
+    // integer point that is on none of the three side lines, point_in_poly says "inside" exactly when the point is on
+    // the same side of the three sides. All products stay below 2^24, so the f32 arithmetic of the function is exact.
+    #[kani::proof]
+    #[kani::unwind(5)]
+    fn c13_pip_triangle() {
+        let ((ax, afx), (ay, afy)) = (any_coord(), any_coord());
+        let ((bx, bfx), (by, bfy)) = (any_coord(), any_coord());
+        let ((cx, cfx), (cy, cfy)) = (any_coord(), any_coord());
+        let ((px, pfx), (py, pfy)) = (any_coord(), any_coord());
+        let cross = |ox: i32, oy: i32, ux: i32, uy: i32, vx: i32, vy: i32| (ux - ox) * (vy - oy) - (uy - oy) * (vx - ox);
+        let area2 = cross(ax, ay, bx, by, cx, cy);
+        kani::assume(area2 != 0);
+        let (s1, s2, s3) = (cross(ax, ay, bx, by, px, py), cross(bx, by, cx, cy, px, py), cross(cx, cy, ax, ay, px, py));
+        kani::assume(s1 != 0 && s2 != 0 && s3 != 0);
+        kani::cover!(s1 > 0 && s2 > 0 && s3 > 0, "a strictly interior point exists");
+        let want = (s1 > 0 && s2 > 0 && s3 > 0) || (s1 < 0 && s2 < 0 && s3 < 0);
+        let poly = [point![afx, afy], point![bfx, bfy], point![cfx, cfy]];
+        let got = point_in_poly(point![pfx, pfy], &poly);
+        assert!(got == want, "C13.pip.triangle");
+    }
+}
+
 #[cfg(verif_native)]
 mod n {
     use super::*;
